@@ -36,6 +36,10 @@ class Sim:
         self.fail_sbatch_call = None     # raise OSError at the k-th sbatch call (after accepting earlier ones)
         self.fail_squeue = 0             # number of squeue calls that fail (all retries)
         self.sbatch_error_calls = set()  # sbatch calls that return a non-zero status
+        self.deps = None                 # original blockers per job name (set by the harness): monitor for C02
+        self.finished = set()            # names with a result row
+        self.early = []                  # (job, blocker) handed to the scheduler before the blocker had an outcome
+        self.out = None
 
     def run_command(self, cmd, output=None, **kw):
         if output is not None:
@@ -56,6 +60,13 @@ class Sim:
             i = self.next
             self.next += 1
             self.sbatch.append((i, bid, [j[0] for j in jobs]))
+            if self.deps is not None:
+                inbatch = {j[0] for j in jobs}
+                have = self.names_with_rows()
+                for j in jobs:
+                    for b in self.deps.get(j[0], ()):
+                        if b not in inbatch and b not in have:
+                            self.early.append((j[0], b))
             self.active[str(i)] = (bid, jobs)
             output["stdout"] = f"Submitted batch job {i}\n"
             return 0
@@ -72,6 +83,20 @@ class Sim:
             self.active.pop(i, None)
             return 0
         return 0
+
+    def names_with_rows(self):
+        """names that have a result row anywhere (consolidated file or a node file, whoever wrote it)"""
+        import csv
+        import glob
+        names = set(self.finished)
+        if self.out:
+            for f in [os.path.join(self.out, "processed_results.csv")] + glob.glob(os.path.join(self.out, "results", "results_batch_*.csv")):
+                try:
+                    with open(f) as fh:
+                        names |= {r["name"] for r in csv.DictReader(fh)}
+                except OSError:
+                    pass
+        return names
 
     def finish(self, out, i, rcs, lose=False):
         """The node of batch i runs its jobs (dependency order, cancel-on-failure) and writes result rows - or is lost."""
@@ -94,6 +119,7 @@ class Sim:
                     else:
                         res[n] = rcs.get(n, 0)
                         ResultsAggregator.append(out, Result(n, res[n], "finished", 1.0, hpc_job_id=str(i)), batch_id=bid)
+                    self.finished.add(n)
                     pending.remove(j)
 
 
@@ -154,6 +180,8 @@ def run_history(S, case):
         rcs = {x: rng.choice([0, 0, 1]) for x in ns}
         kw = dict(per_node_batch_size=case["size"], max_nodes=case["max_nodes"], try_add_blocked_jobs=case["try_add"])
         cfg = make_config(jobs, **kw)
+        sim.deps = {x: set(b) for x, b, _ in jobs}
+        sim.out = out
         fault = case.get("fault")          # None | ("sbatch_raise", k) | ("squeue", round) | ("sbatch_error", k) | ("lose", k)
         if fault and fault[0] == "sbatch_raise":
             sim.fail_sbatch_call = fault[1]
@@ -216,6 +244,8 @@ def run_history(S, case):
                     pass
                 if noact and not crashed and len(sim.sbatch) == nb and not status(out).config.is_complete and not (fault and fault[0] == "sbatch_error"):
                     fails.append("C05: all batches ended, submission not complete, and a try-submit-jobs round neither submitted nor completed")
+        if sim.early and not (fault and fault[0] in ("lose", "sbatch_error")):
+            fails.append(f"C02: handed to the scheduler before a blocker in another batch had an outcome: {sim.early[:3]}")
         placed = [x for _, _, js in sim.sbatch for x in js]
         if len(placed) != len(set(placed)):
             dup = sorted({x for x in placed if placed.count(x) > 1})
@@ -302,7 +332,131 @@ def cases_cancel(tier, rng):
                "finish_first": rng.randint(0, 2)}
 
 
+def run_to_completion(sim, out, rcs, rng, max_steps=80):
+    for _ in range(max_steps):
+        if status(out).config.is_complete:
+            return True
+        if sim.active:
+            sim.finish(out, int(rng.choice(list(sim.active))), rcs)
+        round_(out)
+    return status(out).config.is_complete
+
+
+def read_rows(out):
+    import csv
+    with open(os.path.join(out, "processed_results.csv")) as f:
+        return list(csv.DictReader(f))
+
+
+def run_resubmit(S, case):
+    """C13: a fault-free submission runs to completion with some failing jobs; resubmit-jobs (real callback) with generated flags; the scripted
+    scheduler records what is handed over afterwards.  Oracle: exactly the flag-selected jobs plus their transitive dependents are handed over, each
+    once; the rows of every other job are untouched; afterwards one row per job.  Also the refusal on an incomplete submission."""
+    from jade.cli.resubmit_jobs import resubmit_jobs
+    rng = random.Random(case["seed"])
+    sim = Sim()
+    saved = (SM.run_command, JS.JobSubmitter._save_repository_info)
+    SM.run_command = sim.run_command
+    JS.JobSubmitter._save_repository_info = lambda self, reg: None
+    out = tempfile.mkdtemp(prefix="verif-resub-")
+    fails = []
+    try:
+        n = case["n"]
+        ns = [f"j{i}" for i in range(n)]
+        order = ns[:]
+        if case["order"] == "reversed":
+            order.reverse()
+        elif case["order"] == "shuffled":
+            rng.shuffle(order)
+        jobs = []
+        for x in order:
+            prev = [y for y in ns if y < x]
+            jobs.append((x, rng.sample(prev, rng.randint(0, min(2, len(prev)))), rng.random() < 0.4))
+        deps = {x: set(b) for x, b, _ in jobs}
+        rcs = {x: rng.choice([0, 0, 1]) for x in ns}
+        cfg = make_config(jobs, per_node_batch_size=case["size"], max_nodes=case["max_nodes"], try_add_blocked_jobs=case["try_add"])
+        with contextlib.redirect_stdout(io.StringIO()), contextlib.redirect_stderr(io.StringIO()):
+            JobSubmitter.run_submit_jobs(cfg, out)
+            if case["refuse"]:
+                # resubmit-jobs while the submission is still running: must refuse and change nothing
+                if status(out).config.is_complete:
+                    return {"pre_ok": False}
+                before = {f: open(os.path.join(out, f)).read() for f in ("cluster_config.json", "job_status.json", "processed_results.csv")}
+                nb = len(sim.sbatch)
+                try:
+                    resubmit_jobs.callback(out, True, True, False, None, False)
+                    code = 0
+                except SystemExit as e:
+                    code = e.code
+                except Exception as e:  # noqa: BLE001
+                    code = f"{type(e).__name__}: {e}"
+                after = {f: open(os.path.join(out, f)).read() for f in before}
+                if code != 1:
+                    fails.append(f"resubmit-jobs on an incomplete submission ended with {code!r}, expected exit status 1")
+                c = status(out)
+                if c.config.submitter is not None:
+                    fails.append("resubmit-jobs on an incomplete submission left the submitter role taken")
+                if len(sim.sbatch) != nb:
+                    fails.append("resubmit-jobs on an incomplete submission handed a batch to the scheduler")
+                for f in ("job_status.json", "processed_results.csv"):
+                    if before[f] != after[f]:
+                        fails.append(f"resubmit-jobs on an incomplete submission changed {f}")
+                return {"pre_ok": True, "ok": not fails, "failed": fails}
+            if not run_to_completion(sim, out, rcs, rng):
+                return {"pre_ok": False}
+            rows0 = {r["name"]: r for r in read_rows(out)}
+            status0 = {r["name"]: ("ok" if (r["return_code"] == "0" and r["status"] == "finished") else "bad") for r in rows0.values()}
+            failed_f, succ_f = case["failed"], case["successful"]
+            selected = {x for x in ns if (failed_f and status0.get(x) == "bad") or (succ_f and status0.get(x) == "ok") or (case["missing"] and x not in rows0)}
+            want = set(selected)
+            changed = True
+            while changed:
+                changed = False
+                for x in ns:
+                    if x not in want and deps[x] & want:
+                        want.add(x)
+                        changed = True
+            nb = len(sim.sbatch)
+            try:
+                resubmit_jobs.callback(out, failed_f, case["missing"], succ_f, None, False)
+                code = 0
+            except SystemExit as e:
+                code = e.code
+            if not want:
+                return {"pre_ok": True, "ok": True, "failed": []}        # nothing selected: whatever the command does with an empty set is outside the claim
+            if code != 0:
+                fails.append(f"resubmit-jobs ended with exit status {code}")
+            run_to_completion(sim, out, {x: 0 for x in ns}, rng)
+            launched = [x for _, _, js in sim.sbatch[nb:] for x in js]
+            if sorted(launched) != sorted(want):
+                fails.append(f"jobs handed to the scheduler after resubmit-jobs {sorted(launched)} != selected {sorted(selected)} + transitive dependents = {sorted(want)}")
+            rows1 = read_rows(out)
+            per_name = {}
+            for r in rows1:
+                per_name.setdefault(r["name"], []).append(r)
+            dup = sorted(x for x, v in per_name.items() if len(v) > 1)
+            if dup:
+                fails.append(f"after resubmission the results hold more than one entry for {dup}")
+            if sorted(per_name) != sorted(ns):
+                fails.append(f"after resubmission the results hold entries for {sorted(per_name)}, configured jobs {sorted(ns)}")
+            for x in ns:
+                if x not in want and x in rows0 and per_name.get(x) and per_name[x][0] != rows0[x]:
+                    fails.append(f"result of {x} (not rerun) changed: {rows0[x]} -> {per_name[x][0]}")
+        return {"pre_ok": True, "ok": not fails, "failed": fails[:4]}
+    finally:
+        SM.run_command, JS.JobSubmitter._save_repository_info = saved
+        shutil.rmtree(out, ignore_errors=True)
+
+
+def cases_resubmit(tier, rng):
+    for i in range(40 if tier == "quick" else 500):
+        yield {"seed": rng.randint(0, 10**9), "n": rng.randint(2, 6), "size": rng.choice([1, 2, 3]), "max_nodes": rng.choice([1, 2, None]),
+               "try_add": rng.random() < 0.5, "order": ("forward", "reversed", "shuffled")[i % 3], "refuse": (i % 8) == 7,
+               "failed": (i % 4) != 3, "missing": True, "successful": (i % 5) == 4}
+
+
 HARNESSES = {
     "HpcSubmitter.run": (cases_history, run_history),
     "JobSubmitter.cancel_jobs": (cases_cancel, run_cancel),
+    "resubmit_jobs": (cases_resubmit, run_resubmit),
 }
